@@ -43,18 +43,29 @@ struct Obs {
     polls: Vec<i64>,
 }
 
+/// `cancel_after` values at or below MID ask for the token to be set at the (MID - cancel_after)-th native bulk call
+const MID: i64 = -1000;
+
 /// Runs `f` with the hooks installed: polls are recorded, the token is set after exactly
 /// `cancel_after` polls (0 = before the run, -1 = never), task starts are perturbed.
 fn with_hooks<R>(token: &CancelToken, cancel_after: i64, seed: u64, f: impl FnOnce() -> R) -> (R, Obs) {
     let polls = Arc::new(Mutex::new(Vec::<i64>::new()));
     let count = Arc::new(AtomicI64::new(0));
-    let (p2, c2, t2) = (polls.clone(), count.clone(), token.clone());
+    let bulk = Arc::new(AtomicI64::new(0));
+    let (p2, c2, t2, b2) = (polls.clone(), count.clone(), token.clone(), bulk.clone());
     verif::set_sink(Some(Arc::new(move |e: verif::Event| {
         if e.name == "poll" {
             let flag = e.fields.iter().find(|(k, _)| *k == "cancelled").map(|(_, v)| *v).unwrap_or(0);
             p2.lock().unwrap().push(flag);
             let n = c2.fetch_add(1, Ordering::SeqCst) + 1;
             if cancel_after > 0 && n == cancel_after {
+                t2.cancel();
+            }
+        } else if e.name == "bulk_call" && cancel_after <= MID {
+            // cancellation in the middle of a task: the JIT's bulk driver reports every native call, which happens while
+            // a tile is being worked on; the token is set at the k-th such call (cancel_after = MID - k)
+            let n = b2.fetch_add(1, Ordering::SeqCst) + 1;
+            if n == MID - cancel_after {
                 t2.cancel();
             }
         }
@@ -140,6 +151,9 @@ fn run2<F: Function + RenderHints + MathFunction + Clone>(cx: &mut Cx, backend: 
     for t in thread_choices(quick, k) {
         let mut ks: Vec<i64> = vec![-1, 0, 1, (ntasks as i64) / 2, ntasks as i64 - 1, ntasks as i64, ntasks as i64 + 5];
         if quick { ks = vec![-1, 0, 1 + rng.below(ntasks.max(2) - 1) as i64, ntasks as i64]; }
+        if backend == "jit" {
+            ks.extend([MID - 1, MID - 2 - rng.below(30) as i64]);
+        }
         for ca in ks {
             let token = CancelToken::new();
             let (r, obs) = with_hooks(&token, ca, rng.next(), || vharness::catch(std::panic::AssertUnwindSafe(|| render(t, token.clone()))));
@@ -151,8 +165,9 @@ fn run2<F: Function + RenderHints + MathFunction + Clone>(cx: &mut Cx, backend: 
 fn run3<F: Function + RenderHints + MathFunction + Clone>(cx: &mut Cx, backend: &str, b: &Built, quick: bool, k: usize, rng: &mut Rng) {
     let shape = Shape::<F>::new(&b.ctx, b.root).unwrap();
     let vars = ShapeVars::<f32>::new();
-    let size = [(32u32, 32u32, 32u32), (24, 40, 20), (40, 16, 33)][k % 3];
-    let tiles: &[usize] = [&[8usize, 4][..], &[8], &[16, 4]][k % 3];
+    // the last one is a single root tile in XY and several root tiles deep: all polls happen before any work
+    let size = [(32u32, 32u32, 32u32), (24, 40, 20), (40, 16, 33), (16, 16, 64)][k % 4];
+    let tiles: &[usize] = [&[8usize, 4][..], &[8], &[16, 4], &[16, 4]][k % 4];
     let ntasks = (size.0 as usize).div_ceil(tiles[0]) * (size.1 as usize).div_ceil(tiles[0]);
     let render = |threads: i64, token: CancelToken| -> Option<[i64; 2]> {
         let cfg = voxel::RenderConfig { image_size: VoxelSize::new(size.0, size.1, size.2), world_to_model: Matrix4::identity() };
@@ -164,6 +179,10 @@ fn run3<F: Function + RenderHints + MathFunction + Clone>(cx: &mut Cx, backend: 
     for t in thread_choices(quick, k) {
         let mut ks: Vec<i64> = vec![-1, 0, 1, (ntasks as i64) / 2, ntasks as i64 - 1, ntasks as i64 + 3];
         if quick { ks = vec![-1, 0, 1 + rng.below(ntasks.max(2) - 1) as i64]; }
+        if backend == "jit" {
+            // in the middle of a tile, after 1, a few or many native calls
+            ks.extend([MID - 1, MID - 3 - rng.below(20) as i64, MID - 40 - rng.below(400) as i64]);
+        }
         for ca in ks {
             let token = CancelToken::new();
             let (r, obs) = with_hooks(&token, ca, rng.next(), || vharness::catch(std::panic::AssertUnwindSafe(|| render(t, token.clone()))));
